@@ -10,6 +10,7 @@ package main
 import (
 	"bytes"
 	"fmt"
+	"io"
 	"strconv"
 	"strings"
 
@@ -29,16 +30,29 @@ func init() {
 		d := &recDst{failAt: -1}
 		h := ws.Header{Fin: true, OpCode: ws.OpCode(opn), Length: int64(len(payload)), Masked: state.ServerSide()}
 		var err error
-		switch a[0] {
+		// H<k> / F<k>: the payload comes from a plain reader (no WriterTo) in chunks of k bytes
+		entry, chunk := a[0], 0
+		if i := strings.Index(entry, "k"); i > 0 {
+			chunk, _ = strconv.Atoi(entry[i+1:])
+			entry = entry[:i]
+		}
+		plainSrc := func(p []byte) io.Reader {
+			if chunk == 0 {
+				return bytes.NewReader(p)
+			}
+			rd, _ := mkReader(append([]byte(nil), p...), chunk, "E")
+			return rd
+		}
+		switch entry {
 		case "H":
 			wire := append([]byte(nil), payload...)
 			if state.ServerSide() {
 				h.Mask = mask
 				ws.Cipher(wire, mask, 0)
 			}
-			err = wsutil.ControlHandler{Src: bytes.NewReader(wire), Dst: d, State: state}.Handle(h)
+			err = wsutil.ControlHandler{Src: plainSrc(wire), Dst: d, State: state}.Handle(h)
 		case "F":
-			err = wsutil.ControlFrameHandler(d, state)(h, bytes.NewReader(payload))
+			err = wsutil.ControlFrameHandler(d, state)(h, plainSrc(payload))
 		case "M":
 			msg := wsutil.Message{OpCode: ws.OpCode(opn), Payload: payload}
 			if state.ServerSide() {
@@ -94,6 +108,52 @@ func init() {
 		return strings.Join(items, ";") + " masks=" + masks
 	}
 	register("C08", genC08)
+	register("C08", genC08rdd)
+}
+
+// genC08rdd: control frames through the read helpers (ReadData and its Client/Server Text/Binary variants,
+// ReadMessage): between messages, and BETWEEN THE FRAGMENTS of a message (wanted or being skipped) — the
+// reply must be written all the same, a close must be reported.
+func genC08rdd(tier string, r *rng) {
+	n := 40
+	if tier == "thorough" {
+		n = 1500
+	}
+	for i := 0; i < n; i++ {
+		for _, server := range []bool{true, false} {
+			st := sideOf(server)
+			ctl := func() gframe {
+				switch r.intn(4) {
+				case 0:
+					return gframe{true, 0, ws.OpPong, r.bytes(r.intn(10))}
+				case 1:
+					return gframe{true, 0, ws.OpClose, append([]byte{0x03, 0xe8 + byte(r.intn(4))}, []byte("bye")...)}
+				default:
+					return gframe{true, 0, ws.OpPing, r.bytes([]int{0, 1, 7, 60, 125}[r.intn(5)])}
+				}
+			}
+			text := r.bool()
+			op := ws.OpBinary
+			if text {
+				op = ws.OpText
+			}
+			var fs []gframe
+			if r.intn(3) == 0 {
+				fs = append(fs, ctl())
+			}
+			fs = append(fs, gframe{false, 0, op, []byte("ab")}, ctl(), gframe{false, 0, ws.OpContinuation, []byte("cd")})
+			if r.bool() {
+				fs = append(fs, ctl())
+			}
+			fs = append(fs, gframe{true, 0, ws.OpContinuation, []byte("ef")}, gframe{true, 0, ws.OpText, []byte("next")})
+			enc := encodeStream(fs, server, r)
+			k := []int{0, 1, 3, 16}[r.intn(4)]
+			for _, want := range []string{"D", "T", "B"} {
+				run(fmt.Sprintf("rdd %d %s %s %d E %d", st, want, hx(enc), k, i))
+			}
+			run(fmt.Sprintf("rm %d %s %d E", st, hx(enc), k))
+		}
+	}
 }
 
 func genC08(tier string, r *rng) {
@@ -114,6 +174,23 @@ func genC08(tier string, r *rng) {
 						p = r.bytes(n)
 					}
 					run(fmt.Sprintf("ctl %s %d %d %s %s %d", entry, st, op, hx(p), keys[(n+ei)%2], n+op))
+				}
+			}
+		}
+	}
+	// payload arriving in several reads from a source that is not an io.WriterTo (a network connection)
+	for _, op := range []int{8, 9, 10} {
+		for _, n := range []int{1, 2, 3, 7, 8, 30, 64, 125} {
+			for _, k := range []int{1, 2, 3, 7, 10, 20} {
+				for _, st := range []int{1, 2} {
+					var p []byte
+					if op == 8 && n >= 2 {
+						p = append([]byte{0x03, 0xe8}, bytes.Repeat([]byte("q"), n-2)...)
+					} else {
+						p = r.bytes(n)
+					}
+					run(fmt.Sprintf("ctl Hk%d %d %d %s %s %d", k, st, op, hx(p), keys[(n+k)%2], n+op+k))
+					run(fmt.Sprintf("ctl Fk%d %d %d %s %s %d", k, st, op, hx(p), keys[(n+k)%2], n+op+k))
 				}
 			}
 		}
